@@ -14,7 +14,7 @@ from ..observe import canon
 
 ID = 'C17'
 LEVEL = 'exploration'
-RUNS = {'quick': 6000, 'thorough': 200000}
+RUNS = {'quick': 6000, 'thorough': 600000}
 WALL = {'quick': 120, 'thorough': 1500}
 RULE = ("seeded combinator calls: and_/or_/not_ over 1-4 scripted idempotent members (pins, clamps, rounding, ties, sort, conditional "
         "jumps; pure/in-place/aliasing forms; compatible, conflicting, cyclic), inputs as lists and arrays, maxiter in 1..100, the same "
